@@ -5,8 +5,9 @@ CONSTANTS
   Handles = {1, 2, 3, 4}
   Keys = {1}
   Vals = {1, 2}
-  MaxInst = 3
+  MaxInst = 4
   SigOf <- MC_SigDistinct
   AlwaysLookup = TRUE
 INVARIANTS OneInstance Aliasing TypeSafe FlushDurable Registered
+PROPERTIES CloseDurable OpenReadsDisk
 CHECK_DEADLOCK FALSE
